@@ -17,7 +17,9 @@ THEOREMS = {
             "C13_short_reads"],
     "C12": ["C12_fault_surfaces", "C12_finalize_any", "C12_retry", "C12_failed_finalize_harmless", "C12_reachable", "C12_drop", "C12_chunking"],
     "C11": ["C11_crash_states", "C11_read_any_header", "C11_crash_prefix", "C11_torn_length_monotone",
-            "C11_torn_header", "C11_committed_states", "C11_committed_readable"],
+            "C11_torn_header", "C11_committed_states", "C11_committed_readable",
+            "C11_read_index_truncated", "C11_index_from_crash_state", "C11_crash_index_ordered", "C11_crash_states_shx",
+            "C11_crash_prefix_index"],
     "C16": ["C16_rings", "C16_vertices", "C16_closed", "C16_orientation", "C16_idempotent", "C16_multipatch",
             "C16_test_is_exact_sign", "C16_area_of_reverse", "C16_orientation_exact", "C16_idempotent_exact"],
     "C17": ["C17_requests", "C17_index_requests", "C17_record_requests"],
@@ -42,7 +44,8 @@ AXIOMS = {"C16_test_is_exact_sign": FLOCQ, "C16_orientation_exact": FLOCQ, "C16_
           "C17_requests": FLOCQ, "C17_index_requests": FLOCQ, "C17_record_requests": FLOCQ,
           "C16_rings": FLOCQ, "C16_vertices": FLOCQ, "C16_closed": FLOCQ, "C16_orientation": FLOCQ, "C16_idempotent": FLOCQ,
           "C16_multipatch": FLOCQ,
-          "C11_read_any_header": FLOCQ, "C11_crash_prefix": FLOCQ, "C11_committed_readable": FLOCQ,
+          "C11_read_any_header": FLOCQ, "C11_crash_prefix": FLOCQ, "C11_committed_readable": FLOCQ, "C11_read_index_truncated": FLOCQ, "C11_index_from_crash_state": FLOCQ,
+          "C11_crash_index_ordered": FLOCQ, "C11_crash_prefix_index": FLOCQ,
           "C13_truncation": FLOCQ, "C13_truncated_header": FLOCQ, "C13_record_cut": FLOCQ, "C13_fault": FLOCQ,
           "C13_fault_open": FLOCQ, "C13_inside_is_prefix": FLOCQ,
           "C07_open": FLOCQ, "C07_index_parse": FLOCQ, "C07_no_panic": FLOCQ, "C07_record": FLOCQ, "C07_bounded_index": FLOCQ,
